@@ -16,7 +16,9 @@ def dt_filters(rng, analysis=True):
     """raw integer filters for the module constructors: (l0, l1) level-1 pair (odd lengths) and
     (a0, b0, a1, b1) q-shift quadruple (even length)"""
     Lo = rng.choice([3, 5, 7, 9, 13]); L1 = rng.choice([3, 5, 7, 9, 19]); m = 2 * rng.randint(1, 9)
-    return [gen.int_filter(rng, Lo), gen.int_filter(rng, L1)] + [gen.int_filter(rng, m) for _ in range(4)]
+    # the two trees of ONE pair have equal lengths; the low-pass pair and the high-pass pair need not (a legal 4-tuple)
+    m1 = m if rng.random() < 0.5 else 2 * rng.randint(1, 9)
+    return [gen.int_filter(rng, Lo), gen.int_filter(rng, L1)] + [gen.int_filter(rng, m) for _ in range(2)] + [gen.int_filter(rng, m1) for _ in range(2)]
 
 
 def pyramid_shapes(H, W, J):
